@@ -149,6 +149,31 @@ def value_ctors(repo):
     return out
 
 
+def check_writes_through_interpreter(ctx, repo, rid, modules, what):
+    """WHO-MAY(variable write): code outside the interpreter binds Klong variables with `klong[k] = v` (KlongInterpreter.__setitem__,
+    which also drops the compiled-expression cache), never by storing into `<interp>._context` / the scope dictionaries directly."""
+    n = 0
+    for f in repo.all_funcs(modules):
+        for x in walk_local(f.node):
+            tgt = None
+            if isinstance(x, ast.Subscript) and isinstance(x.ctx, (ast.Store, ast.Del)) and "_context" in (dotted(x.value) or src(x.value)):
+                tgt = x
+            elif isinstance(x, ast.Call) and callee_name(x) == "set_context_var":
+                tgt = x
+            if tgt is not None:
+                # exempt: a constant system symbol (`.cli.h`): the temporary handle of one command, never a user variable and never a
+                # value the compiler admits (C03-R2 checks its bind/unbind pairing)
+                key = tgt.slice if isinstance(tgt, ast.Subscript) else (tgt.args[1] if len(tgt.args) > 1 else None)
+                key = resolve_single_assign(key, f.node) if key is not None else None
+                if isinstance(key, ast.Call) and callee_name(key) == "KGSym" and key.args and isinstance(key.args[0], ast.Constant) and str(key.args[0].value).startswith("."):
+                    continue
+                n += 1
+                ctx.ob(rid, f.fq, f"{what} binds variables through the interpreter (klong[k] = v), not through the scope stack", False, node=tgt, construct=f"direct store into the context in {f.name}: {src(tgt)[:50]}",
+                       msg=f"{f.name} writes `{src(tgt)[:60]}` past KlongInterpreter.__setitem__: the compiled-expression cache is not dropped, so expressions compiled while the variable had "
+                           "another kind keep running stale code on the new value")
+    ctx.ob(rid, "/".join(sorted(modules)), f"no store into `_context` in {what} ({n} found)", n == 0, construct=f"context written only through the interpreter in {what}")
+
+
 def value_alternatives(e, fnode, before, conds=(), depth=4):
     """[(expression, ((test, polarity), ...))]: the values `e` can denote at statement `before` of fnode, each with the facts under
     which it is the one taken - independent of whether the choice is spelled `x = A if c else B`, `x = a or B`, or
